@@ -44,6 +44,72 @@ func hasNilErrGuard(at ssa.Instruction, call *ssa.Call, errIdx int) bool {
 	return false
 }
 
+// successPoint: one way of leaving f with a nil (or possibly nil) error, together with everything known to hold on it.
+// When the error returned is a φ (a single `return` shared by the accepting and the rejecting paths), each possibly-nil
+// edge is a success point of its own, guarded by the conditions of the predecessor that carries it.
+type successPoint struct {
+	ret   *ssa.Return
+	atoms []Atom
+}
+
+func successPoints(f *ssa.Function) []successPoint {
+	var out []successPoint
+	errIdx := f.Signature.Results().Len() - 1
+	for _, r := range returnsOf(f) {
+		ev := resultValue(r, errIdx)
+		if errIsNilAt(ev, r) == "nonnil" {
+			continue
+		}
+		base := AtomsAt(r)
+		var split func(v ssa.Value, acc []Atom, depth int) bool
+		split = func(v ssa.Value, acc []Atom, depth int) bool {
+			ph, ok := v.(*ssa.Phi)
+			if !ok || depth > 3 {
+				return false
+			}
+			for k, e := range ph.Edges {
+				pred := ph.Block().Preds[k]
+				last := pred.Instrs[len(pred.Instrs)-1]
+				if errIsNilAt(e, last) == "nonnil" {
+					continue
+				}
+				as := append([]Atom{}, acc...)
+				for _, g := range GuardsOf(pred) {
+					as = append(as, NormCond(g.Cond, g.Pol))
+				}
+				if ifi, isIf := last.(*ssa.If); isIf && len(pred.Succs) == 2 && pred.Succs[0] != pred.Succs[1] {
+					pol := pred.Succs[0] == ph.Block()
+					as = append(as, NormCond(ifi.Cond, pol))
+					for _, g := range shortCircuitGuards(ifi.Cond, pol, ifi, 0) {
+						as = append(as, NormCond(g.Cond, g.Pol))
+					}
+				}
+				if !split(e, as, depth+1) {
+					out = append(out, successPoint{r, as})
+				}
+			}
+			return true
+		}
+		if !split(ev, base, 0) {
+			out = append(out, successPoint{r, base})
+		}
+	}
+	return out
+}
+
+func hasNilErrGuardIn(atoms []Atom, call *ssa.Call, errIdx int) bool {
+	errV := extractOf(call, errIdx)
+	if errV == nil {
+		errV = call
+	}
+	for _, a := range atoms {
+		if a.Kind == "cmp" && a.Op == token.EQL && (a.X == errV || a.Y == errV) && (isNilConst(a.X) || isNilConst(a.Y)) {
+			return true
+		}
+	}
+	return false
+}
+
 func successReturns(f *ssa.Function) []*ssa.Return {
 	var out []*ssa.Return
 	errIdx := f.Signature.Results().Len() - 1
@@ -63,6 +129,9 @@ func c07R1(c *Ctx, rule string) {
 		return
 	}
 	var pfp, reg, dec *ssa.Call
+	// resolved by object (rename tolerant), not by the callee's spelling
+	regF := p.Func("internal/server", "State.registerRandom")
+	decF := p.Func("internal/server", "decryptClientInfo")
 	allInstrs(f, func(i ssa.Instruction) {
 		call, ok := i.(*ssa.Call)
 		if !ok {
@@ -72,10 +141,10 @@ func c07R1(c *Ctx, rule string) {
 			pfp = call
 		}
 		if g := call.Call.StaticCallee(); g != nil {
-			switch g.Name() {
-			case "registerRandom":
+			switch g {
+			case regF:
 				reg = call
-			case "decryptClientInfo":
+			case decF:
 				dec = call
 			}
 		}
@@ -84,15 +153,16 @@ func c07R1(c *Ctx, rule string) {
 		c.Bad(rule, "required checks present in AuthFirstPacket", c.atFn(f), fmt.Sprintf("processFirstPacket=%v registerRandom=%v decryptClientInfo=%v", pfp != nil, reg != nil, dec != nil))
 		return
 	}
-	rs := successReturns(f)
+	rs := successPoints(f)
 	if len(rs) == 0 {
 		c.Undecided(rule, "success returns of AuthFirstPacket", c.atFn(f), "none found")
 	}
-	for _, r := range rs {
-		g1 := hasNilErrGuard(r, pfp, 2)
-		g3 := hasNilErrGuard(r, dec, 1)
+	for _, sp := range rs {
+		r := sp.ret
+		g1 := hasNilErrGuardIn(sp.atoms, pfp, 2)
+		g3 := hasNilErrGuardIn(sp.atoms, dec, 1)
 		g2 := false
-		for _, a := range AtomsAt(r) {
+		for _, a := range sp.atoms {
 			if a.Kind == "call" && !a.Pol && a.Call == reg {
 				g2 = true
 			}
@@ -239,15 +309,31 @@ func c07R2(c *Ctx, rule string) {
 	c.Check(okCT, rule, "client time = time.Unix(BE64(plaintext[29:37]), 0)", c.atFn(f), "timestamp field at [29:37]", "the timestamp is not decoded from bytes 29..36 of the plaintext")
 	isClient := func(v ssa.Value) bool { return clientTime != nil && stripConv(v) == ssa.Value(clientTime) }
 	isServer := func(v ssa.Value) bool { return stripConv(v) == serverTime }
-	rs := successReturns(f)
+	rs := successPoints(f)
 	if len(rs) == 0 {
 		c.Undecided(rule, "success returns of decryptClientInfo", c.atFn(f), "none found")
 	}
-	for _, r := range rs {
+	for _, sp := range rs {
+		r := sp.ret
 		var lower, upper *windowAtom
 		var seen []string
-		for _, a := range AtomsAt(r) {
-			if w, ok := classifyWindowAtom(a, isClient, isServer); ok {
+		// a window test moved into a boolean helper still guards the return: look through "helper(...) == true"
+		atoms, bind := expandBoolCalls(p, sp.atoms)
+		res := func(v ssa.Value) ssa.Value {
+			v = stripConv(v)
+			for k := 0; k < 4; k++ {
+				a, ok := bind[v]
+				if !ok {
+					break
+				}
+				v = stripConv(a)
+			}
+			return v
+		}
+		isC := func(v ssa.Value) bool { return isClient(res(v)) }
+		isS := func(v ssa.Value) bool { return isServer(res(v)) }
+		for _, a := range atoms {
+			if w, ok := classifyWindowAtom(a, isC, isS); ok {
 				ww := w
 				seen = append(seen, fmt.Sprintf("%s [%s bound, strict=%v, offset %ds]", w.desc, map[bool]string{true: "lower", false: "upper"}[w.lower], w.strict, w.c/1e9))
 				if w.lower {
